@@ -12,7 +12,7 @@ from ..report import RuleReport
 
 LEVEL = 'other'
 TECHNIQUE = ('static: writer/reader mirror of the pack/unpack pipelines, codec injectivity conditions on replace-chains and regex '
-             'substitutions (marker escaping K1, decoder token alignment K2 by NFA prefix-match queries), typestate of the reader '
+             'substitutions (marker escaping K1, decoder token alignment K2 by NFA prefix-match queries, encoder-marker subset-of decoder-token inclusion K3), typestate of the reader '
              'offset by path-state execution with inlined context managers, exception-set agreement between unpack and receive')
 LEVEL_TEXT = ('Decides from the source: pack and unpack apply mirrored stages in mirrored order; each escape layer either escapes its '
               'own marker first (K1) or is reported; the run-length decoder stays aligned with the encoder\'s tokens (K2: a pass that '
